@@ -223,3 +223,61 @@ func HarnessC08ForgedPolicy() {
 		verif.Reach("both-reject")
 	}
 }
+
+// HarnessC08FromEntry: verifying onward from an entry reached by an earlier
+// successful verification gives the same verdict as verifying the whole log.
+func HarnessC08FromEntry() {
+	w := zzNewWorld()
+	spec := zzBasePolicy([]int{0, 1}, nil)
+	zzMust(w.zzStageAndApply(spec, w.zzBuildState(spec, []int{0}, []int{0}), 0))
+	w.zzPush(zzMain, 0, 1, false)
+
+	n := verif.Concrete(verif.IntRange("slots", 2, verif.Bound("slots", 3, 4)))
+	mid := verif.Concrete(verif.Choice("checkpoint.after", n)) // the slot after which the earlier verification ran
+	var checkpoint githash.Hash
+	checkpointOK := false
+	policyUpdated := false
+	variant := 1
+	for i := 0; i < n; i++ {
+		p := "s" + strconv.Itoa(i)
+		switch verif.Concrete(verif.Choice(p+".kind", 3)) {
+		case 0:
+			variant++
+			w.zzPush(zzMain, verif.Choice(p+".signer", 3), variant, false)
+		case 1:
+			variant++
+			w.zzPush(zzFeature, verif.Choice(p+".signer", 3), variant, false)
+		default:
+			if !policyUpdated {
+				next := zzBasePolicy([]int{1}, nil) // key0 de-authorised for main
+				next.rootVersion, next.targetsVer = 2, 2
+				zzMust(w.zzStageAndApply(next, w.zzBuildState(next, []int{0}, []int{0}), 0))
+				policyUpdated = true
+			}
+		}
+		if i == mid {
+			_, err := zz8Verify(w, zzMain, false)
+			checkpointOK = err == nil
+			for k := len(w.hist) - 1; k >= 0; k-- {
+				if w.hist[k].kind == "push" && w.hist[k].ref == zzMain {
+					checkpoint = w.hist[k].entryID
+					break
+				}
+			}
+		}
+	}
+	if !checkpointOK || checkpoint == nil {
+		verif.Reach("no-checkpoint")
+		return
+	}
+	tipFull, errFull := zz8Verify(w, zzMain, false)
+	tipFrom, errFrom := NewPolicyVerifier(w.S).VerifyRefFromEntry(w.ctx, zzMain, checkpoint)
+	verif.Assert((errFull == nil) == (errFrom == nil), "from-checkpoint-verdict-equals-full-verdict")
+	if errFull == nil && errFrom == nil {
+		verif.Assert(tipFull.Equal(tipFrom), "from-checkpoint-tip-equals-full-tip")
+		verif.Reach("both-accept")
+	}
+	if errFull != nil {
+		verif.Reach("both-reject")
+	}
+}
